@@ -11,7 +11,8 @@ def generate(rng, tier, shard, nshards):
     n = 40 if tier == "quick" else 400
     for i in range(n):
         srn, kw = [("Sat3", {}), ("Bool", {}), ("RatU", {"contractive": True}), ("Sat2", {}), ("RatU", {"acyclic": True}),
-                   ("Rat", {"acyclic": True}), ("MaxTimes", {"acyclic": True}), ("BM2", {})][i % 8]
+                   ("Rat", {"acyclic": True}), ("MaxTimes", {"acyclic": True}), ("BM2", {}),
+                   ("MaxTimes", {"leq1": True}), ("RatU", {"contractive": True, "signed": True})][i % 10]
         A = lops.rand_graph(rng, srn, rng.choice([1, 2, 3, 4, 5]), rng.choice([0, 2, 4, 7, 10]), **kw)
         feat = lops.gfeat(A)
         style = rng.choice(lops.NODE_STYLES)
